@@ -90,6 +90,7 @@ type Client struct {
 	PDBs      []*policyv1.PodDisruptionBudget
 	VAs       []*storagev1.VolumeAttachment
 	Faults    map[string]bool
+	FaultMax  int // when > 0, the highest fault code any call may draw (1 = only a generic error)
 	Lag       map[string]bool
 	Log       []Call
 	OnDelete  func(kind, name string) // called when a Delete is about to take effect
@@ -140,6 +141,9 @@ func gr(kind string) schema.GroupResource { return schema.GroupResource{Resource
 func (c *Client) fault(verb, kind, name string, max int) error {
 	f := FaultNone
 	if c.Faults[verb] || c.Faults[verb+":"+kind] {
+		if c.FaultMax > 0 && max > c.FaultMax {
+			max = c.FaultMax
+		}
 		f = verifrt.Choice("fault."+verb+"."+kind, FaultNone, max)
 	}
 	c.Log = append(c.Log, Call{verb, kind, name, f == FaultNone})
@@ -528,11 +532,14 @@ type Provider struct {
 	Terminating   map[string]bool // Delete accepted, not yet gone
 	Creates       map[string]int  // NodeClaim name -> successful Create calls
 	DeleteCalls   int
+	CreateErrors  []int // when set, the error outcomes Create may draw (default: all three)
 	InstanceTypes []*cloudprovider.InstanceType
 	Policies      []cloudprovider.RepairPolicy
 	NodeClasses   []status.Object
 	Drifted       cloudprovider.DriftReason
 	Log           []Call
+	OnCreate      func(nc *v1.NodeClaim) // called when a Create is about to succeed
+	LastCreateOutcome int
 	next          int
 }
 
@@ -554,9 +561,16 @@ const (
 func (p *Provider) Create(ctx context.Context, nc *v1.NodeClaim) (*v1.NodeClaim, error) {
 	out := CreateOK
 	if p.Faults["create"] {
-		out = verifrt.Choice("provider.create", CreateOK, CreateOther)
+		if len(p.CreateErrors) > 0 {
+			if k := verifrt.Choice("provider.create", 0, len(p.CreateErrors)); k > 0 {
+				out = p.CreateErrors[k-1]
+			}
+		} else {
+			out = verifrt.Choice("provider.create", CreateOK, CreateOther)
+		}
 	}
 	p.Log = append(p.Log, Call{"create", "Instance", nc.Name, out == CreateOK})
+	p.LastCreateOutcome = out
 	switch out {
 	case CreateInsufficientCapacity:
 		return nil, cloudprovider.NewInsufficientCapacityError(fmt.Errorf("no capacity"))
@@ -564,6 +578,9 @@ func (p *Provider) Create(ctx context.Context, nc *v1.NodeClaim) (*v1.NodeClaim,
 		return nil, cloudprovider.NewNodeClassNotReadyError(fmt.Errorf("nodeclass not ready"))
 	case CreateOther:
 		return nil, fmt.Errorf("injected provider create failure")
+	}
+	if p.OnCreate != nil {
+		p.OnCreate(nc)
 	}
 	p.next++
 	id := fmt.Sprintf("verif://instance-%d", p.next)
